@@ -655,19 +655,22 @@ if __name__ == '__main__':
 ANCHORED = ('_run', '_run_backend', 'do_work', 'run', '_init_child', '_cleanup', '_send_result', '_fetch_results')
 
 
+FRAMING = ('recv_msg', '_recv_exactly', 'send_msg')      # message framing of the remote kinds: every point also in the quick tier
+
+
 def is_anchored(site):
     return site[2] in ANCHORED or site[0] in ('targets.py', 'statew.py')
 
 
 def select_points(sites, full):
-    """All points (full) or: every point of the anchored functions and of the harness target, plus the first and the last
-    point of every contiguous run inside other callees (logging, pipe wrappers, framing, pickling)."""
+    """All points (full) or: every point of the anchored functions, of the message framing functions and of the harness target,
+    plus the first and the last point of every contiguous run inside other callees (logging, pipe wrappers, pickling)."""
     n = len(sites)
     if full:
         return list(range(1, n + 1))
     keep = []
     for i, s in enumerate(sites):
-        if is_anchored(s):
+        if is_anchored(s) or s[2] in FRAMING:
             keep.append(i + 1)
         else:
             prev_a = i == 0 or is_anchored(sites[i - 1])
